@@ -223,6 +223,8 @@ def lu(prog: Program, rep, x: ExcFlow) -> None:
     for n_ in c.module.tree.body:
         if isinstance(n_, ast.Assign) and len(n_.targets) == 1 and isinstance(n_.targets[0], ast.Name) and isinstance(n_.value, ast.Constant):
             _MODULE_CONSTS[n_.targets[0].id] = n_.value.value
+        elif isinstance(n_, ast.AnnAssign) and isinstance(n_.target, ast.Name) and isinstance(n_.value, ast.Constant):
+            _MODULE_CONSTS[n_.target.id] = n_.value.value
     rs = returns_of(sv)
     if not rs:
         raise AnalysisError("LUSolver.solve: no return")
